@@ -9,8 +9,11 @@ claimed={
  "C04": ("write-set analysis on every path of every G-driver: no value-changing store/map update/append/copy into any cell that existed before the query (schema, files, bytes, targets, functions) or into package-level state",),
  "C05": ("sufficient condition decided symbolically: no write of any kind to pre-existing or package-level state on any explored path (non-interference); candidates are replayed with 4 goroutines under the race detector",),
  "C06": ("edit ranges of all candidates: real range, starts at or before the cursor, reaches the cursor up to blanks; limit 100; over all layouts/cursors of each seed",),
+ "C07": ("K-harness over bodySchemaCandidates: candidates equal the specification (known, prefix, still declarable, not shadowed, extensions) for symbolic flags/limits over a menu of names and prefixes; sorted, no duplicates",),
+ "C08": ("K-harnesses over Targets.MatchWalk with symbolic ranges: every offered target has the prefix, is visible (self only where enabled, block-local names only inside their block, never the attribute being edited) and fits or has a fitting descendant; round trip through Targets.Match",),
  "C09": ("G-driver over CollectReferenceTargets: ranges real (weak part so far)",),
  "C10": ("G-driver over CollectReferenceOrigins: ranges real, ordered by position",),
+ "C11": ("K-harness through Decoder.ReferenceTargetsForOriginAtPos/ReferenceOriginsTargetingPos over two paths with symbolic ranges and positions: resolution against the right path, block-local names only inside their block, find-references at the reported definition returns the origin",),
  "C12": ("HoverAtPos over all layouts/cursors of each seed: content non-empty and range contains the cursor",),
  "C13": ("SemanticTokensInFile over all layouts of each seed: ordered, disjoint, non-empty, advertised types, real ranges",),
  "C14": ("SymbolsInFile over all layouts of each seed: source order, child inside parent, names non-empty, real ranges",),
